@@ -1,6 +1,6 @@
 (* C40 Deferred jobs run until they succeed.
    Property theorems only; proofs live in Proofs/Dissolve.v. *)
-From Coq Require Import List NArith ZArith Bool Arith Permutation.
+From Coq Require Import List NArith ZArith Bool Arith Permutation Lia.
 From Cfg Require Import Model.RingQueue Model.Dissolve Proofs.Dissolve.
 Import ListNotations.
 
@@ -62,25 +62,29 @@ Proof.
 Qed.
 Print Assumptions C40_strict_refuted.
 
-(* Liveness under bounded failures -- PARTIAL.  Proved:
-   (1) a resting open system (queue empty, no job in a worker's hands) has executed every accepted job
-       to success;
-   (2) no deadlock: while open, every worker can move, except one asleep on an EMPTY queue (it can be
-       woken as soon as the queue is non-empty) -- the explicit fairness premise is that enabled worker
-       actions are eventually taken;
-   (3) the number of runs is at most (#accepted jobs) + (#failed runs): if each job fails at most k
-       times, at most (k+1) * #jobs runs happen.
-   Missing for the full statement "every fair schedule without Close reaches (1) within a computable
-   number of worker steps": the ranking argument bounding the workers' idle steps between runs. *)
-Theorem C40_liveness_partial_rest : forall ic nw sched s, 1 <= ic ->
-  drun (dinitial ic nw) sched = DNext s -> dclosed (d_q s) = false -> dcnt (d_q s) = 0 -> held s = [] ->
-  Permutation (d_accepted s) (d_succeeded s).
-Proof.
-  intros ic nw sched s Hic H. apply terminal_all_done. apply (dreach_inv ic nw); auto. exists sched; auto.
-Qed.
-Print Assumptions C40_liveness_partial_rest.
+(* Liveness under bounded failures, never-closed queue.  From ANY reachable open state, for ANY continuation
+   made of worker actions only (LWStep / LWWake / LWFinish, the outcome of every run chosen freely):
+   (1) the continuation has at most  rank s + (Q-1) * (failed runs in it)  steps, where
+       rank s <= Q * (jobs queued) + workers * (Q + 9) and Q = 4 * workers + 8 -- a computable bound; in
+       particular, if every job fails at most k times, fails <= k * #jobs and every worker-only run is finite;
+   (2) explicit fairness premise = the continuation is maximal (it stops only where NO worker action is
+       enabled; by (1) every fair run gets there): then every submitted job has succeeded.
+   The ranking function: Q per queued job, plus per worker 0..6 by program counter (a worker about to call
+   Remove counts 4 when the queue is empty, 0 otherwise -- the only place where another worker's action can
+   raise a worker's rank, paid for by the Q of the job that was taken), plus Q+3 for a job about to be
+   re-queued; a failed run raises the rank by Q-2. *)
+Theorem C40_liveness : forall ic nw sched0 s sched s', 1 <= ic ->
+  drun (dinitial ic nw) sched0 = DNext s -> dclosed (d_q s) = false ->
+  forallb worker_label sched = true -> drun s sched = DNext s' ->
+  length sched <= rank s + (Qc s - 1) * fails sched /\
+  rank s <= Qc s * dcnt (d_q s) + length (d_w s) * (Qc s + 9) /\
+  (1 <= length (d_w s) -> (forall l, worker_label l = true -> dstep s' l = DBlocked) ->
+   Permutation (d_accepted s') (d_succeeded s') /\ d_accepted s' = d_accepted s).
+Proof. exact liveness. Qed.
+Print Assumptions C40_liveness.
 
-Theorem C40_liveness_partial_progress : forall ic nw sched s w p, 1 <= ic ->
+(* no deadlock: while open every worker can move, except one asleep on an EMPTY queue *)
+Theorem C40_progress : forall ic nw sched s w p, 1 <= ic ->
   drun (dinitial ic nw) sched = DNext s -> dclosed (d_q s) = false -> getw (d_w s) w = Some p ->
   match p with
   | WRunning _ => forall ok, exists s', dstep s (LWFinish w ok) = DNext s'
@@ -91,13 +95,14 @@ Theorem C40_liveness_partial_progress : forall ic nw sched s w p, 1 <= ic ->
 Proof.
   intros ic nw sched s w p Hic H. apply progress. apply (dreach_inv ic nw); auto. exists sched; auto.
 Qed.
-Print Assumptions C40_liveness_partial_progress.
+Print Assumptions C40_progress.
 
-Theorem C40_liveness_partial_bounded_runs : forall ic nw sched s, 1 <= ic ->
+(* the number of runs is at most (#accepted jobs) + (#failed runs) *)
+Theorem C40_bounded_runs : forall ic nw sched s, 1 <= ic ->
   drun (dinitial ic nw) sched = DNext s ->
   count_starts (d_log s) <= length (d_accepted s) + count_failures (d_log s).
 Proof. exact bounded_runs. Qed.
-Print Assumptions C40_liveness_partial_bounded_runs.
+Print Assumptions C40_bounded_runs.
 
 (* ---- non-vacuity ---- *)
 (* two workers, three jobs, job 1 fails once and is retried; at rest everything succeeded *)
@@ -120,3 +125,13 @@ Example C40_ex_close :
     d_log s = [EStart (mkJob 1) false; EFinish (mkJob 1) false] /\
     getw (d_w s) 0 = Some WExit /\ d_rejected s = [mkJob 3].
 Proof. eexists. vm_compute. repeat split; reflexivity. Qed.
+
+(* a maximal worker-only continuation: 13 steps <= the bound, no worker action enabled at the end *)
+Example C40_ex_liveness :
+  let s := match drun (dinitial 2 1) [LSubmit (mkJob 1); LSubmit (mkJob 2)] with DNext s => s | _ => dinitial 2 1 end in
+  let sched := [LWStep 0; LWStep 0; LWStep 0; LWFinish 0 false; LWStep 0; LWStep 0; LWStep 0; LWStep 0; LWFinish 0 true;
+                LWStep 0; LWStep 0; LWStep 0; LWFinish 0 true; LWStep 0] in
+  exists s', drun s sched = DNext s' /\ d_succeeded s' = [mkJob 2; mkJob 1] /\
+             dstep s' (LWStep 0) = DBlocked /\ dstep s' (LWWake 0) = DBlocked /\
+             length sched <= rank s + (Qc s - 1) * fails sched.
+Proof. eexists. vm_compute. repeat split; try reflexivity. lia. Qed.
